@@ -379,7 +379,7 @@ where
         }
 
         if COMPRESSED
-            && (symbol.as_() >= self.codes_encode.as_ref().unwrap().len()
+            && (symbol.to_usize().map_or(true, |s| s >= self.codes_encode.as_ref().unwrap().len())
                 || self.codes_encode.as_ref().unwrap()[symbol.as_() as usize].len == 0)
         {
             return None;
@@ -443,7 +443,7 @@ where
         }
 
         if COMPRESSED
-            && (symbol.as_() >= self.codes_encode.as_ref().unwrap().len()
+            && (symbol.to_usize().map_or(true, |s| s >= self.codes_encode.as_ref().unwrap().len())
                 || self.codes_encode.as_ref().unwrap()[symbol.as_() as usize].len == 0)
         {
             return None;
